@@ -101,7 +101,9 @@ THEOREMS = [
 RULE = ("one stratum per native strategy (CMA-ES, sep-CMA-ES, LM-MA-ES, OpenAI-ES non-mirror, OpenAI-ES mirror): "
         "random dimension 2..6 (thorough ..8), batch, dtype, bounds layout (none / box / one-sided mix; scalar bounds in "
         "the thorough tier), then a history of ask/tell iterations with a uniformly random ranking permutation and a "
-        "parent count drawn from 0..batch (0, 1, batch//2 and batch over-weighted), interleaved resets; plus gradient-"
+        "parent count drawn from 0..batch (0, 1, batch//2 and batch over-weighted), 30 % of the histories ranked by a "
+        "fixed linear objective instead (drives the paths one way: hsig = 0, growing sigma, check_stop), interleaved "
+        "resets; plus gradient-"
         "optimizer histories (dyadic exact stream and rounded stream, with and without L2 term, with resets) and pycma "
         "wrapper histories. A strategy case is non-trivial when some iteration selects >= 2 parents under a non-identity "
         "permutation; a gradient case when >= 2 non-zero gradients are stepped; counted once per distinct op list")
@@ -124,6 +126,9 @@ ASSUMPTIONS = [
     "hsig test or bound test falls inside the tie zone around the discontinuity are skipped and counted",
     "between iterations the model is re-synchronised on the implementation's public state (moments of Adam, which "
     "are private, are threaded through the model instead, rounded to float64 each step)",
+    "histories follow the documented protocol: check_stop() is consulted after every tell and the optimizer is reset "
+    "when it says stop (a CMA-ES driven on past condition number 1e14 reaches a zero eigenvalue and NaN paths); "
+    "bounded histories end when the estimated acceptance rate of a row falls below 3 % (resampling would not return)",
 ]
 TRUSTED_EXTRA = [
     "harness float reference of the resample loop / weights / Adam rule used by the oracle (NumPy float64)",
@@ -384,7 +389,7 @@ def fexp(x):
         return None
 
 
-def with_supplied(base, sup_tokens, n_sqrt_fixed):
+def with_supplied(base, sup_tokens):
     """Fixpoint loop: send, read the arguments the model needs roots / exp of, supply them, resend.
 
     sup_tokens(sqrts, e) -> string of supplied tokens; returns (response, sqrts, e) or ("overflow", ...)."""
@@ -561,7 +566,6 @@ def run_es_case(case):
 
 def check_reset_model(case, es, x0, where):
     kind, dim = case["kind"], case["dim"]
-    tol0 = 0.0
     if kind == "cma":
         r = ask_model(f"reset kind=cma n={dim} sigma0={fq(case['sigma0'])} x0={qv(x0)}")
         obs = [("mean", es.mean, pv(r["mean"])), ("sigma", [es.sigma], pv(r["sigma"])),
@@ -593,7 +597,6 @@ def check_reset_model(case, es, x0, where):
         impl = np.asarray(impl, dtype=np.float64)
         if impl.shape != np.asarray(mod).shape or not np.array_equal(impl, np.asarray(mod, dtype=np.float64)):
             return fail("oracle", where, f"state after reset: {name} = {impl.tolist()} expected {np.asarray(mod).tolist()}")
-    del tol0
     return None
 
 
@@ -875,7 +878,7 @@ def cma_like_tell(case, es, kind, before, sols, recorded, perm, mu, where, tol, 
         def sup(sq, e):
             sq = sq or [Fraction(1)] * (1 + nvec)
             return f"sps={fq_(sq[0])} sm={','.join(fq_(s) for s in sq[1:1 + nvec]) or '-'} exp={fq_(e)}"
-    r = with_supplied(base, sup, 0)
+    r = with_supplied(base, sup)
     if "err" in r:
         return fail("corr", where, f"model rejected the tell: {r['err']}")
     if "overflow" in r:
@@ -964,12 +967,12 @@ def adam_tokens(cfg):
             f"l2={fq(cfg['l2_coeff'])}")
 
 
-def adam_model(req_head, dim, sup_extra=""):
+def adam_model(req_head, dim):
     """one Adam step of the model with the fixpoint over supplied roots; returns response dict"""
     def sup(sq, e):
         sq = sq or [Fraction(1)] * (1 + dim)
         return f"sb2={fq_(sq[0])} sv={','.join(fq_(s) for s in sq[1:1 + dim])}"
-    return with_supplied(req_head, sup, 0)
+    return with_supplied(req_head, sup)
 
 
 def openai_tell(case, es, before, noise, perm, where, tol, dim, batch, ref, mirror):
@@ -1470,7 +1473,10 @@ def run(ctx):
         for i, (name, gen, nt, nq, _, weight) in enumerate(todo):
             n_cases = ctx.n(nq, nq)
             nmin = min(MIN_CASES, n_cases)
+            nf = len(ctx.failures)
             ctx.explore(name, gen, run_case, nmin, nontrivial=nt)
+            if len(ctx.failures) > nf:
+                continue  # this stratum already produced its (shrunk) failing cases
             remaining = deadline - time.time()
             wsum = sum(s[5] for s in todo[i:])
             budget = max(0.5, remaining * weight / wsum)
@@ -1577,9 +1583,12 @@ def run_thorough(ctx):
             continue
         small = core.shrink(case, run_case, f, "ops")
         ctx.failures.append((run_case(small) or f, small))
-    if ctx.samples == [] and tasks:
-        name, gen = todo[0][0], todo[0][1]
-        ctx.sample(gen(ctx.rng(name, 0)))
+    # samples: the first generated case of three strata (they were run by the workers above)
+    for name, gen, _, _, _, _ in (todo[0], todo[3], todo[5]):
+        if not any(fn == name and fi == 0 for fn, fi, _ in failing):
+            c = gen(ctx.rng(name, 0))
+            c["stratum"] = name
+            ctx.sample(c)
 
 
 def replay(ctx, case):
